@@ -80,7 +80,7 @@ fn main() {
     "profile content (counters, timings) is not judged".into(),
   ];
   let quick = ctx.quick();
-  let n = ctx.n(400, 10000);
+  let n = ctx.n(400, 80_000);
   ctx.run_cases("quads", n, |rng: &mut Rng, l: &mut Local, scratch| {
     let n_docs = rng.urange(8, 40);
     let corpus = paging::gen_corpus_with(rng, n_docs, 4, false);
